@@ -162,6 +162,9 @@ func randBOp(r *rand.Rand, mode int) BOp {
 	case k < 17:
 		return BOp{Op: "SM", N: r.Intn(3)}
 	case k < 18:
+		if r.Intn(3) == 0 {
+			return BOp{Op: "GR", N: []int{0, 1, 63, 64, 65, 1000}[r.Intn(6)]}
+		}
 		return BOp{Op: "RST"}
 	case k < 19:
 		return BOp{Op: "TK"}
